@@ -106,7 +106,7 @@ func referenceCov(d *dataset, dim int, sigmaMin float64) (mu, sig []float64, cla
 		L, pd := cholesky(sig, dim)
 		if pd {
 			for a := 0; a < dim; a++ {
-				if L[a*dim+a]*L[a*dim+a] < 1e-10*sig[a*dim+a] {
+				if L[a*dim+a]*L[a*dim+a] < 1e-6*sig[a*dim+a] {
 					pd = false
 				}
 			}
@@ -125,7 +125,7 @@ func referenceCov(d *dataset, dim int, sigmaMin float64) (mu, sig []float64, cla
 	L, pd := cholesky(sig, dim)
 	if pd {
 		for a := 0; a < dim; a++ {
-			if L[a*dim+a]*L[a*dim+a] < 1e-10*sig[a*dim+a] {
+			if L[a*dim+a]*L[a*dim+a] < 1e-6*sig[a*dim+a] {
 				pd = false
 			}
 		}
@@ -140,6 +140,16 @@ func runClosedMvn(cs *fw.Case, r *prng.Rand) {
 	gamma, wclass := genGamma(r, n)
 	smin := r.PickF([]float64{1e-12, 1e-6, 1e-6, 0.5, 5})
 	variant := r.Pick([]string{"Estimate", "EstimateOnData", "batch"})
+	gamma, wclass = applyShift(r, gamma, wclass, n)
+	if activeShift != nil {
+		// the diagonal-only floor in d >= 2 is an open finding of its own; the
+		// shift cells keep the floor out of the way
+		smin = 1e-12
+	}
+	if variant == "batch" && extremeShift() {
+		cs.Skip("batch-cannot-rescale")
+		return
+	}
 	d := &dataset{X: X, Gamma: gamma}
 	d.prepare()
 	wit := map[string]any{"estimator": "vector normal", "dim": dim, "config": map[string]any{"SigmaMin": smin}, "x": X, "gamma": gammaJSON(gamma), "entry": variant}
@@ -214,7 +224,10 @@ func runClosedMvn(cs *fw.Case, r *prng.Rand) {
 		class = "d>=2,floor-active"
 	}
 	sigBase := fmt.Sprintf("C16|%s|vectorNormal|%s", cs.Monitor, class)
-	if illClass(spread) != "" {
+	if activeShift != nil {
+		sigBase += fmt.Sprintf(",shift=%g", *activeShift)
+	}
+	if illClass(spread) != "" && activeShift == nil {
 		// ... unless the data are in the regime where the one-pass moments are
 		// rounding noise: that decides first
 		sigBase = "C16|closed|vectorNormal-moments|" + spread
